@@ -63,6 +63,7 @@ type BranchRec struct {
 
 type HashState struct {
 	data []*Node // bytes written since Reset
+	alt  bool    // constructor came from an overriding registration
 }
 
 type State struct {
@@ -124,7 +125,7 @@ func (s *State) clone() *State {
 	}
 	c.hash = map[int]*HashState{}
 	for k, v := range s.hash {
-		c.hash[k] = &HashState{data: append([]*Node(nil), v.data...)}
+		c.hash[k] = &HashState{data: append([]*Node(nil), v.data...), alt: v.alt}
 	}
 	c.bigv = map[int]*Node{}
 	for k, v := range s.bigv {
@@ -411,6 +412,11 @@ func (x *Exec) globalObj(st *State, g *ssa.Global) int {
 		x.zglobals[name] = true
 	}
 	o := x.newObj(st, "global:"+shortFn(name), "Global", et.String(), x.zeroSlots(et, nil))
+	if name == "crypto/rand.Reader" {
+		ro := x.newObj(st, "rand-reader-stub", "Global", "io.Reader", nil)
+		ro.frozen = true
+		o.slots[0] = I{t: theReaderType, v: P{obj: ro.id}}
+	}
 	o.frozen = st.postInit // after package initialisation every global, of any package, is read-only for the API
 	st.globals[g] = o.id
 	return o.id
